@@ -78,4 +78,3 @@ Proof.
   specialize (IH (add ex x) (S i) k j). rewrite E in IH. specialize (IH H). cbn [length]. lia.
 Qed.
 End Namespaces.
-Print Assumptions extend_index.
